@@ -304,3 +304,74 @@ harness!(delete_update_vs_clone, 7, {
     du_vs_kind(11);
 });
 
+
+fn wal_list(present: bool, id: u8) -> Vec<MemWal> {
+    let mut v = Vec::new();
+    if present {
+        v.push(MemWal { id });
+    }
+    v
+}
+
+// @harness props=C39 tier=quick timeout=1200 desc="UpdateMemWalState vs a committed UpdateMemWalState (each side adds <=1 and updates <=1 MemWAL): if both sides add or update the same MemWAL the later one is rejected as incompatible; trims (nothing added/updated) and changes to different MemWALs pass"
+harness!(memwal_vs_memwal, 7, {
+    let ids: [u8; 4] = vnd::any();
+    let present: [bool; 4] = vnd::any();
+    let mine = Operation::UpdateMemWalState { added: wal_list(present[0], ids[0]), updated: wal_list(present[1], ids[1]), removed: Vec::new() };
+    let theirs = Operation::UpdateMemWalState { added: wal_list(present[2], ids[2]), updated: wal_list(present[3], ids[3]), removed: Vec::new() };
+    let mut me = TransactionRebase { transaction: Transaction { operation: mine }, initial_fragments: HashMap::new(), modified_fragment_ids: HashSet::new(), affected_rows: None };
+    let r = me.check_txn(&Transaction { operation: theirs }, 7);
+    let mut same = false;
+    let mut i = 0;
+    while i < 2 {
+        let mut j = 2;
+        while j < 4 {
+            if present[i] && present[j] && ids[i] == ids[j] {
+                same = true;
+            }
+            j += 1;
+        }
+        i += 1;
+    }
+    let i_trim = !present[0] && !present[1];
+    let they_trim = !present[2] && !present[3];
+    vnd::cover!(same && r.is_err(), "the same MemWAL on both sides");
+    vnd::cover!(!same && present[0] && present[3] && r.is_ok(), "different MemWALs");
+    if i_trim || they_trim {
+        assert!(r.is_ok());
+    } else {
+        assert!(r == if same { Err(Error::CommitConflict) } else { Ok(()) });
+    }
+});
+
+// @harness props=C39 tier=quick timeout=1200 desc="UpdateMemWalState vs every other committed operation kind: data-changing operations (Append, Overwrite, Delete, DataReplacement, Merge, Restore, Clone, Project, Update without a MemWAL merge) are incompatible; UpdateConfig, Rewrite, CreateIndex, ReserveFragments, UpdateBases and an Update that merges a MemWAL pass"
+harness!(memwal_vs_others, 7, {
+    let mine = Operation::UpdateMemWalState { added: wal_list(true, vnd::any()), updated: Vec::new(), removed: Vec::new() };
+    let mut me = TransactionRebase { transaction: Transaction { operation: mine }, initial_fragments: HashMap::new(), modified_fragment_ids: HashSet::new(), affected_rows: None };
+    let kind: u8 = vnd::any();
+    vnd::assume(kind < 14);
+    let merges: bool = vnd::any();
+    let other = match kind {
+        0 => Operation::Append { fragments: Vec::new() },
+        1 => Operation::Overwrite { fragments: Vec::new() },
+        2 => Operation::Delete { updated_fragments: Vec::new(), deleted_fragment_ids: Vec::new(), predicate: () },
+        3 => Operation::DataReplacement { replacements: Vec::new() },
+        4 => Operation::Merge { fragments: Vec::new() },
+        5 => Operation::Restore { version: 1 },
+        6 => Operation::Clone { is_shallow: false },
+        7 => Operation::Project { schema: () },
+        8 => Operation::Update { removed_fragment_ids: Vec::new(), updated_fragments: Vec::new(), new_fragments: Vec::new(), mem_wal_to_merge: if merges { Some(MemWal { id: vnd::any() }) } else { None } },
+        9 => Operation::UpdateConfig { config: () },
+        10 => Operation::Rewrite { groups: Vec::new(), rewritten_indices: (), frag_reuse_index: () },
+        11 => Operation::CreateIndex { new_indices: (), removed_indices: () },
+        12 => Operation::ReserveFragments { num_fragments: 1 },
+        _ => Operation::UpdateBases { new_bases: () },
+    };
+    let r = me.check_txn(&Transaction { operation: other }, 7);
+    vnd::cover!(kind == 8 && merges, "an Update that merges a MemWAL");
+    match kind {
+        0..=7 => assert!(r == Err(Error::CommitConflict)),
+        8 => assert!(r == if merges { Ok(()) } else { Err(Error::CommitConflict) }),
+        _ => assert!(r.is_ok()),
+    }
+});
